@@ -148,6 +148,17 @@ class SourceBroke(Exception):
     pass
 
 
+def recycled(pieces):
+    """Yield memoryviews of a single bytearray that is overwritten for every piece."""
+    size = max((len(p) for p in pieces), default=0)
+    buf = bytearray(size)
+    for p in pieces:
+        buf[:len(p)] = p
+        for i in range(len(p), size):
+            buf[i] = 0xEE
+        yield memoryview(buf)[:len(p)]
+
+
 def adapter_case(args):
     mn, mx, ki, kcuts, lens = args
     key = KEYS[ki]
@@ -209,6 +220,15 @@ def adapter_case(args):
                 bounds = (0,) + cuts + (L,)
                 pieces = [data[bounds[i]:bounds[i + 1]] for i in range(len(bounds) - 1)]
                 variants = [pieces]
+                if 1 <= len(cuts) <= kcuts:
+                    # a producer that hands out views of ONE buffer it refills for every piece (readinto-style):
+                    # a piece is only valid until the next one is requested
+                    n += 1
+                    got = chunks_of(ad, recycled(pieces), key)
+                    if got != chunks_of(ad, pieces, key):
+                        vs.append((dict(sig0, what='depends-on-piece-memory-being-kept', producer='recycled-buffer'),
+                                   {'min': mn, 'max': mx, 'key': key, 'data': data, 'pieces': [len(x) for x in pieces],
+                                    'lossless': b''.join(got) == data}))
                 if len(cuts) <= kcuts:
                     for pos in range(len(pieces) + 1):
                         variants.append(pieces[:pos] + [b''] + pieces[pos:])
